@@ -573,4 +573,229 @@ theorem step_ackedBuf {s : State} {op : Op} {e : StepEnv} (hok : (s.step op e).2
     split <;> rfl
 
 
+/-- ascending ranges with a gap between neighbours (what `validateAckRanges` accepts, read backwards) -/
+def SortedR (rem : List Range) : Prop := List.Pairwise (fun a b => a.2 + 1 < b.1) rem
+
+theorem advance_dropped (pn : PN) (rem : List Range) : ∀ r ∈ rem, r ∉ advance pn rem → r.2 < pn := by
+  induction rem with
+  | nil => intro r hr; simp at hr
+  | cons a as ih =>
+    cases as with
+    | nil => intro r hr hn; simp [advance] at hn hr; exact absurd hr hn
+    | cons b bs =>
+      intro r hr hn
+      simp only [advance] at hn
+      split at hn
+      · rename_i hgt
+        rcases List.mem_cons.mp hr with h | h
+        · subst h; omega
+        · exact ih r h hn
+      · exact absurd hr hn
+
+theorem advance_suffix (pn : PN) (rem : List Range) : advance pn rem <:+ rem := by
+  induction rem with
+  | nil => simp [advance]
+  | cons a as ih =>
+    cases as with
+    | nil => simp [advance]
+    | cons b bs =>
+      simp only [advance]
+      split
+      · exact List.IsSuffix.trans ih (List.suffix_cons a (b :: bs))
+      · exact List.suffix_refl _
+
+theorem nextRem_suffix (multi : Bool) (pn : PN) (rem : List Range) : nextRem multi pn rem <:+ rem := by
+  unfold nextRem; split
+  · exact advance_suffix pn rem
+  · exact List.suffix_refl _
+
+theorem SortedR_suffix {a b : List Range} (h : a <:+ b) (s : SortedR b) : SortedR a :=
+  List.Pairwise.sublist h.sublist s
+
+/-- in a sorted range list, a range covering `pn` that is still in the advanced remainder is its head -/
+theorem covering_is_head {pn : PN} {rem : List Range} (hs : SortedR rem) (hne : rem ≠ []) {r : Range} (hr : r ∈ rem)
+    (hc : r.1 ≤ pn ∧ pn ≤ r.2) : ∃ rest, advance pn rem = r :: rest := by
+  obtain ⟨r0, rest, a1, a2, a3⟩ := advance_spec pn rem hne
+  have hmem : r ∈ advance pn rem := by
+    by_cases hm : r ∈ advance pn rem
+    · exact hm
+    · have := advance_dropped pn rem r hr hm; omega
+  rw [a1] at hmem
+  rcases List.mem_cons.mp hmem with h | h
+  · subst h; exact ⟨rest, a1⟩
+  · exfalso
+    have hs' : SortedR (r0 :: rest) := SortedR_suffix a2 hs
+    have := (List.pairwise_cons.mp hs').1 r h
+    rcases a3 with a3 | a3
+    · omega
+    · subst a3; simp at h
+
+theorem collect_acc_mono (multi : Bool) (lowest largest : PN) (pk : List (Option Packet)) (pn : PN) (rem : List Range)
+    (probes stash : List (PN × Packet)) (acc : List PN)
+    (hinv : multi = true → ∃ top, rem.getLast? = some top ∧ top.2 = largest) {q : PN} (hq : q ∈ acc) :
+    q ∈ CollectRes.acc (collect multi lowest largest pn pk rem probes stash acc) := by
+  obtain ⟨pr, st, new, e1, _⟩ := collect_spec multi lowest largest pk pn rem probes stash acc hinv
+  rw [e1]; simp [CollectRes.acc, hq]
+
+/-- completeness of the collection loop: every tracked, non-probe packet number within the ACK's bounds and
+    covered by one of its (sorted) ranges is collected -/
+theorem collect_complete (multi : Bool) (lowest largest : PN) (pk : List (Option Packet)) :
+    ∀ (pn : PN) (rem : List Range) (probes stash : List (PN × Packet)) (acc : List PN),
+      SortedR rem → (multi = true → ∃ top, rem.getLast? = some top ∧ top.2 = largest) →
+      ∀ (i : Nat) (p : Packet), pk[i]? = some (some p) → p.pathProbe = false →
+        lowest ≤ pn + i → pn + i ≤ largest → (multi = true → ∃ r ∈ rem, r.1 ≤ pn + i ∧ pn + i ≤ r.2) →
+        (pn + (i : Int)) ∈ CollectRes.acc (collect multi lowest largest pn pk rem probes stash acc) := by
+  induction pk with
+  | nil => intro pn rem probes stash acc _ _ i p hi; simp at hi
+  | cons x xs ih =>
+    intro pn rem probes stash acc hs hinv i p hi hpp hlo hhi hcov
+    -- the recursive call for a later position
+    have later : ∀ (rem' : List Range) (probes' stash' : List (PN × Packet)) (acc' : List PN) (j : Nat), i = j + 1 →
+        rem' <:+ rem → (multi = true → ∃ top, rem'.getLast? = some top ∧ top.2 = largest) →
+        (multi = true → ∀ r ∈ rem, r ∉ rem' → r.2 < pn + 1) →
+        (pn + (i : Int)) ∈ CollectRes.acc (collect multi lowest largest (pn + 1) xs rem' probes' stash' acc') := by
+      intro rem' probes' stash' acc' j hj hsuf hinv' hdrop
+      subst hj
+      have hi' : xs[j]? = some (some p) := by simpa using hi
+      have := ih (pn + 1) rem' probes' stash' acc' (SortedR_suffix hsuf hs) hinv' j p hi' hpp (by omega) (by omega) (by
+        intro hm
+        obtain ⟨r, hr, hr2⟩ := hcov hm
+        refine ⟨r, ?_, by omega, by omega⟩
+        by_cases hmem : r ∈ rem'
+        · exact hmem
+        · have := hdrop hm r hr hmem; omega)
+      have e : pn + ((j + 1 : Nat) : Int) = pn + 1 + (j : Int) := by omega
+      rw [e]; exact this
+    cases x with
+    | none =>
+      simp only [collect]
+      cases i with
+      | zero => simp at hi
+      | succ j => exact later rem probes stash acc j rfl (List.suffix_refl _) hinv (fun _ r hr hn => absurd hr hn)
+    | some p0 =>
+      simp only [collect]
+      have hdropN : multi = true → ∀ r ∈ rem, r ∉ nextRem multi pn rem → r.2 < pn + 1 := by
+        intro hm r hr hn
+        simp only [nextRem, hm, if_true] at hn
+        have := advance_dropped pn rem r hr hn; omega
+      have hinvN : multi = true → ∃ top, (nextRem multi pn rem).getLast? = some top ∧ top.2 = largest := by
+        intro hm
+        obtain ⟨top, ht, ht2⟩ := hinv hm
+        have hne : rem ≠ [] := by intro hc; simp [hc] at ht
+        obtain ⟨r, rest, a1, a2, _⟩ := advance_spec pn rem hne
+        simp only [nextRem, hm, if_true, a1]
+        exact ⟨top, by rw [suffix_getLast? a2 (by simp)]; exact ht, ht2⟩
+      by_cases hlow : pn < lowest
+      · simp only [hlow, if_true]
+        cases i with
+        | zero => simp at hlo; omega
+        | succ j => exact later rem probes stash acc j rfl (List.suffix_refl _) hinv (fun _ r hr hn => absurd hr hn)
+      · simp only [hlow, if_false]
+        by_cases hhigh : pn > largest
+        · exfalso; omega
+        · simp only [hhigh, if_false]
+          cases i with
+          | succ j =>
+            -- whatever happens at `pn`, the loop goes on with the advanced range cursor
+            by_cases hb : (rangeCheck multi pn (nextRem multi pn rem)).1 = true
+            · simp only [hb, if_true]
+              exact later _ probes stash acc j rfl (nextRem_suffix _ _ _) hinvN hdropN
+            · simp only [hb, Bool.false_eq_true, if_false]
+              by_cases hab : (rangeCheck multi pn (nextRem multi pn rem)).2 = true
+              · -- unreachable (collect_spec), but harmless here: the result would be `.bug`
+                exfalso
+                obtain ⟨pr, st, new, e1, _⟩ := collect_spec multi lowest largest (some p0 :: xs) pn rem probes stash acc hinv
+                simp only [collect, hlow, hhigh, if_false, hb, hab, if_true, Bool.false_eq_true] at e1
+                cases e1
+              · simp only [hab, Bool.false_eq_true, if_false]
+                by_cases hp0 : p0.pathProbe = true
+                · simp only [hp0, if_true]
+                  cases hr : removeProbe pn probes with
+                  | mk o probes' =>
+                    cases o with
+                    | some q => exact later _ probes' _ _ j rfl (nextRem_suffix _ _ _) hinvN hdropN
+                    | none => exact later _ probes' _ _ j rfl (nextRem_suffix _ _ _) hinvN hdropN
+                · simp only [hp0, Bool.false_eq_true, if_false]
+                  exact later _ probes stash _ j rfl (nextRem_suffix _ _ _) hinvN hdropN
+          | zero =>
+            simp only [List.getElem?_cons_zero, Option.some.injEq] at hi
+            subst hi
+            simp only [Int.natCast_zero, Int.add_zero] at hlo hhi hcov ⊢
+            -- `pn` itself: the range cursor stops at the covering range
+            have hchk : (rangeCheck multi pn (nextRem multi pn rem)) = (false, false) := by
+              cases multi with
+              | false => simp [rangeCheck]
+              | true =>
+                obtain ⟨r, hr, hr2⟩ := hcov rfl
+                obtain ⟨top, ht, _⟩ := hinv rfl
+                have hne : rem ≠ [] := by intro hc; simp [hc] at ht
+                obtain ⟨rest, hadv⟩ := covering_is_head hs hne hr hr2
+                simp only [nextRem, if_true, hadv, rangeCheck]
+                simp; omega
+            simp only [hchk, Bool.false_eq_true, if_false, hpp]
+            apply collect_acc_mono _ _ _ _ _ _ _ _ _ hinvN
+            simp
+
+
+/-- what `wire.AckFrame.validateAckRanges` accepts (wire order: highest range first) -/
+def ValidRanges (ranges : List Range) : Prop :=
+  (∀ r ∈ ranges, r.1 ≤ r.2) ∧ List.Pairwise (fun a b => b.2 + 1 < a.1) ranges
+
+theorem lookup_index {h : Hist} {q : PN} {p : Packet} (e : h.lookup q = some p) :
+    ∃ i : Nat, q = h.first + i ∧ h.packets[i]? = some (some p) := by
+  rw [lookup_def] at e
+  split at e
+  · rename_i hc
+    exact ⟨(q - h.first).toNat, by omega, join_some e⟩
+  · simp at e
+
+theorem sorted_bounds {rem : List Range} (hs : SortedR rem) (hw : ∀ r ∈ rem, r.1 ≤ r.2) {bot top r : Range}
+    (hb : rem.head? = some bot) (ht : rem.getLast? = some top) (hr : r ∈ rem) : bot.1 ≤ r.1 ∧ r.2 ≤ top.2 := by
+  induction rem generalizing bot with
+  | nil => simp at hr
+  | cons a as ih =>
+    simp at hb; subst hb
+    have hp := List.pairwise_cons.mp hs
+    rcases List.mem_cons.mp hr with h | h
+    · subst h
+      refine ⟨Int.le_refl _, ?_⟩
+      cases as with
+      | nil => simp at ht; subst ht; exact Int.le_refl _
+      | cons b bs =>
+        have htm : top ∈ b :: bs := by
+          have : (b :: bs).getLast? = some top := by simpa [List.getLast?_cons_cons] using ht
+          exact List.mem_of_getLast? this
+        have := hp.1 top htm
+        have := hw top (List.mem_cons_of_mem _ htm)
+        omega
+    · cases as with
+      | nil => simp at h
+      | cons b bs =>
+        have ht' : (b :: bs).getLast? = some top := by simpa [List.getLast?_cons_cons] using ht
+        obtain ⟨i1, i2⟩ := ih hp.2 (fun r hr => hw r (List.mem_cons_of_mem _ hr)) rfl ht' h
+        have := hp.1 b (by simp)
+        have := hw a (by simp)
+        exact ⟨by omega, i2⟩
+
+/-- completeness of `detectAndRemoveAckedPackets` for frames accepted by `validateAckRanges`: every tracked
+    packet (other than the placeholder of a path probe) whose number is covered by a range of the ACK is collected -/
+theorem detectAndRemove_complete (h : Hist) (ranges : List Range) (top bot : Range) (hh : ranges.head? = some top)
+    (hl : ranges.getLast? = some bot) (hv : ValidRanges ranges) (q : PN) (p : Packet) (hq : h.lookup q = some p)
+    (hpp : p.pathProbe = false) (hcov : ∃ r ∈ ranges, r.1 ≤ q ∧ q ≤ r.2) :
+    q ∈ CollectRes.acc (collect (decide (ranges.length > 1)) bot.1 top.2 h.first h.packets ranges.reverse h.probes [] []) := by
+  obtain ⟨i, e1, e2⟩ := lookup_index hq
+  have hs : SortedR ranges.reverse := by
+    unfold SortedR
+    rw [List.pairwise_reverse]
+    exact hv.2
+  have hinv : decide (ranges.length > 1) = true → ∃ t, ranges.reverse.getLast? = some t ∧ t.2 = top.2 := by
+    intro _; exact ⟨top, by rw [List.getLast?_reverse]; exact hh, rfl⟩
+  obtain ⟨r, hr, hr2⟩ := hcov
+  have hb := sorted_bounds hs (fun r hr => hv.1 r (by simpa using hr)) (bot := bot) (top := top)
+    (by rw [List.head?_reverse]; exact hl) (by rw [List.getLast?_reverse]; exact hh) (r := r) (by simpa using hr)
+  rw [e1]
+  exact collect_complete _ _ _ _ _ _ _ _ _ hs hinv i p e2 hpp (by omega) (by omega)
+    (fun _ => ⟨r, by simpa using hr, by omega, by omega⟩)
+
+
 end Uquic.Proofs.Sent
